@@ -167,6 +167,91 @@ impl Stream for Layouts
 	}
 }
 
+pub struct WordCase
+{
+	pub src: String,
+	/// bytes the members need with their alignment padding
+	pub size: usize,
+	/// sum of the member sizes
+	pub raw: usize,
+	pub declared: usize,
+	pub members: usize,
+	pub max_align: usize,
+	pub array_len: usize,
+	pub shape: String,
+}
+
+/// a word8..word128 whose members reach, stay below or pass the declared size
+pub fn word_case(c: &mut Choices) -> WordCase
+{
+	let declared = *c.pick(&[8usize, 4, 16, 2, 1]);
+	let prims: &[(&str, usize, &str)] = &[
+		("u8", 1, "1"),
+		("i8", 1, "1"),
+		("bool", 1, "true"),
+		("char8", 1, "'a'"),
+		("u16", 2, "1"),
+		("i16", 2, "1"),
+		("u32", 4, "1"),
+		("i32", 4, "1"),
+		("u64", 8, "1"),
+		("i64", 8, "1"),
+		("u128", 16, "1"),
+	];
+	// members until the raw sizes reach (or slightly pass) the declared size
+	let mut members: Vec<(&str, usize, &str)> = Vec::new();
+	let mut raw = 0usize;
+	let target = declared - c.draw(declared.min(3)) + if c.chance(1, 6) { 1 + c.draw(4) } else { 0 };
+	while raw < target && members.len() < 8
+	{
+		let fits: Vec<&(&str, usize, &str)> = prims.iter().filter(|p| raw + p.1 <= target.max(1)).collect();
+		if fits.is_empty()
+		{
+			break;
+		}
+		let m = **c.pick(&fits);
+		raw += m.1;
+		members.push(m);
+	}
+	if members.is_empty()
+	{
+		members.push(prims[0]);
+	}
+	// C layout: every member at the next multiple of min(size, 8)
+	let mut off = 0usize;
+	let mut maxa = 1usize;
+	for (_, size, _) in &members
+	{
+		let a = (*size).min(8);
+		off = (off + a - 1) / a * a + size;
+		maxa = maxa.max(a);
+	}
+	let size = (off + maxa - 1) / maxa * maxa;
+	let k = 2 + c.draw(3);
+	let decl: Vec<String> = members.iter().enumerate().map(|(i, m)| format!("\tm{}: {},\n", i, m.0)).collect();
+	let lit: Vec<String> = members.iter().enumerate().map(|(i, m)| format!("m{}: {}", i, m.2)).collect();
+	let src = format!(
+		"word{} W\n{{\n{}}}\n\nstruct Holder\n{{\n\tfirst: u8,\n\tw: W,\n}}\n\nconst SZ: usize = |:W|;\n\nfn main() -> i32\n{{\n\tvar w = W {{ {} }};\n\tvar a: [{}]W = [{}];\n\tprint!(|:W|, \" \", SZ, \" \", |:[{}]W|, \" \", |:Holder|, \" \", |a|, \"\\n\");\n\treturn: 0\n}}\n",
+		declared * 8,
+		decl.concat(),
+		lit.join(", "),
+		k,
+		(0..k).map(|_| "w").collect::<Vec<_>>().join(", "),
+		k
+	);
+	let shape = format!("word{} {{ {} }}", declared * 8, members.iter().map(|m| m.0).collect::<Vec<_>>().join(", "));
+	WordCase {
+		src,
+		size,
+		raw,
+		declared,
+		members: members.len(),
+		max_align: maxa,
+		array_len: k,
+		shape,
+	}
+}
+
 /// words with arbitrary member lists around their declared size: padding
 /// counts towards the size (E380 beyond it); a word that is accepted occupies
 /// what its members and their alignment need, alone, in arrays and as a member
@@ -188,63 +273,18 @@ impl Stream for WordLimits
 	fn run(&self, _idx: u64, c: &mut Choices, ctx: &RunCtx) -> CaseOut
 	{
 		let mut out = CaseOut::default();
-		let declared = *c.pick(&[8usize, 4, 16, 2, 1]);
-		let prims: &[(&str, usize, &str)] = &[
-			("u8", 1, "1"),
-			("i8", 1, "1"),
-			("bool", 1, "true"),
-			("char8", 1, "'a'"),
-			("u16", 2, "1"),
-			("i16", 2, "1"),
-			("u32", 4, "1"),
-			("i32", 4, "1"),
-			("u64", 8, "1"),
-			("i64", 8, "1"),
-			("u128", 16, "1"),
-		];
-		// members until the raw sizes reach (or slightly pass) the declared size
-		let mut members: Vec<(&str, usize, &str)> = Vec::new();
-		let mut raw = 0usize;
-		let target = declared - c.draw(declared.min(3)) + if c.chance(1, 6) { 1 + c.draw(4) } else { 0 };
-		while raw < target && members.len() < 8
-		{
-			let fits: Vec<&(&str, usize, &str)> = prims.iter().filter(|p| raw + p.1 <= target.max(1)).collect();
-			if fits.is_empty()
-			{
-				break;
-			}
-			let m = **c.pick(&fits);
-			raw += m.1;
-			members.push(m);
-		}
-		if members.is_empty()
-		{
-			members.push(prims[0]);
-		}
-		// C layout: every member at the next multiple of min(size, 8)
-		let mut off = 0usize;
-		let mut maxa = 1usize;
-		for (_, size, _) in &members
-		{
-			let a = (*size).min(8);
-			off = (off + a - 1) / a * a + size;
-			maxa = maxa.max(a);
-		}
-		let size = (off + maxa - 1) / maxa * maxa;
-		let k = 2 + c.draw(3);
-		let decl: Vec<String> = members.iter().enumerate().map(|(i, m)| format!("\tm{}: {},\n", i, m.0)).collect();
-		let lit: Vec<String> = members.iter().enumerate().map(|(i, m)| format!("m{}: {}", i, m.2)).collect();
-		let src = format!(
-			"word{} W\n{{\n{}}}\n\nstruct Holder\n{{\n\tfirst: u8,\n\tw: W,\n}}\n\nconst SZ: usize = |:W|;\n\nfn main() -> i32\n{{\n\tvar w = W {{ {} }};\n\tvar a: [{}]W = [{}];\n\tprint!(|:W|, \" \", SZ, \" \", |:[{}]W|, \" \", |:Holder|, \" \", |a|, \"\\n\");\n\treturn: 0\n}}\n",
-			declared * 8,
-			decl.concat(),
-			lit.join(", "),
-			k,
-			(0..k).map(|_| "w").collect::<Vec<_>>().join(", "),
-			k
-		);
+		let WordCase {
+			src,
+			size,
+			raw,
+			declared,
+			members,
+			max_align: maxa,
+			array_len: k,
+			shape,
+		} = word_case(c);
 		out.key = fnv(&src);
-		out.nontrivial = members.len() >= 2;
+		out.nontrivial = members >= 2;
 		let holes = size != raw;
 		out.class(if size > declared { "word:too-large" } else if size < declared { "word:underfilled" } else { "word:exact" });
 		if holes
@@ -259,7 +299,6 @@ impl Stream for WordLimits
 				..Default::default()
 			},
 		);
-		let shape = format!("word{} {{ {} }}", declared * 8, members.iter().map(|m| m.0).collect::<Vec<_>>().join(", "));
 		let detail = json!({"source": src, "members_need_bytes": size, "declared_bytes": declared, "result": o.summary()});
 		if let Some(e) = &o.internal_error
 		{
